@@ -24,7 +24,7 @@ FUT = fut("XF", 2.0, 0.25)
 # (name, contract, weight, adverse factors, recovery factor)
 POSITIONS = [("long2", SPOT, 2.0, (0.5, 0.25), 4.0), ("long3", SPOT, 3.0, (0.5, 0.25), 4.0),
              ("short1", SPOT, -1.0, (2.0, 4.0), 0.25), ("short2", SPOT, -2.0, (2.0, 4.0), 0.25),
-             ("fut3", FUT, 3.0, (0.5, 0.25), 4.0)]
+             ("fut3", FUT, 3.0, (0.5, 0.25), 4.0), ("futshort2", FUT, -2.0, (2.0, 4.0), 0.25)]
 REWARDS = {"simple": lambda: RewardSimpleReturn(), "log": lambda: RewardLogReturn(),
            "shaped": lambda: LogReturn(scale=0.5, clip=2.0, risk_aversion=0.1), "pnl": lambda: RewardPnL()}
 CALLS = ["step", "step2", "reset"]
@@ -245,7 +245,7 @@ def cases(tier):
                 for script in scripts:
                     yield (pos_i, path, 1024.0, reward, script)
     # first decision refused: non-positive initial cash
-    for pos_i in (0, 2, 4):
+    for pos_i in (0, 2, 4, 5):
         for cash in (0.0, -16.0):
             for reward in REWARDS:
                 for script in [("step",) + s for s in itertools.product(CALLS, repeat=2)]:
@@ -284,8 +284,8 @@ def run(tier, **kw):
     rep.set("distinct_outcomes", len(outcomes))
     rep.set("distinct_nontrivial", len(nt))
     rep.set("exhaustive", True)
-    rep.set("rule", "one evaluation = one environment driven by one call script; enumerated: 5 positions (2x/3x long, 1x/2x short on a fully-paid "
-                    "contract, 3x long on a margined one) x {no ruin, adverse move at bar 1..3 x 2 sizes (exact-zero and negative NLV) x applied as a "
+    rep.set("rule", "one evaluation = one environment driven by one call script; enumerated: 6 positions (2x/3x long, 1x/2x short on a fully-paid "
+                    "contract, 3x long and 2x short on a margined one) x {no ruin, adverse move at bar 1..3 x 2 sizes (exact-zero and negative NLV) x applied as a "
                     "latent quote before the decision or as the bar after it x {no recovery, recovery as bar, recovery as latent quote}} x 4 reward "
                     "functions x every call script step,(step|step-other|reset)^4 (quick) / ^5 (thorough); plus non-positive initial cash; "
                     "non-trivial = distinct case with a ruinous path or non-positive cash")
